@@ -300,7 +300,7 @@ def _report_lines(block):
 def work_debug(chunk, st):
     for archs, threads in chunk:
         def once(prefix):
-            res, s = MT.run_multi(list(archs), threads, 'text', prefix, ('connect',), extra=['-d'])
+            res, s = MT.run_multi(list(archs), threads, 'text', prefix, ('connect',), extra=['-d'], explore_main=True)
             return (res, s), s.points
         n = 0
         for prefix, (res, s), _points in sched.explore_schedules(once, 1, 300):
